@@ -90,10 +90,14 @@ def predict(P2, model):
                         continue
                     if vm_set:
                         if vm['kind'] == 'callable':
-                            kind, usekw = kw_style(P2, s)
-                            npos = {'property': 1, 'static': 1 if usekw else 2, 'instance': 2 if usekw else 3}[kind]
-                            sites[s['sid']] = ('v', ['SUBSTITUTE-CALLED', V.build(vm['v']), npos,
-                                                     ['b'] if usekw and kind != 'property' else []])
+                            kind = P2['ins'][s['i']]['kind']
+                            style = 'both' if s.get('usekw') == 'both' else ('kw' if s.get('usekw') else 'pos')
+                            if kind == 'property':
+                                npos, kws = 1, []
+                            else:
+                                npos = {'pos': 2, 'kw': 1, 'both': 0}[style] + (1 if kind == 'instance' else 0)
+                                kws = {'pos': [], 'kw': ['b'], 'both': ['a', 'b']}[style]
+                            sites[s['sid']] = ('v', ['SUBSTITUTE-CALLED', V.build(vm['v']), npos, kws])
                         else:
                             sites[s['sid']] = ('v', V.build(vm['v']))
                         continue
